@@ -56,6 +56,12 @@ pub struct Scenario {
     /// whose first use was abandoned half-way is used again)
     #[serde(default)]
     pub late_writes: bool,
+    /// the node starts on a store that already knows the scenario's keyspace names (a restart):
+    /// 0 = empty store; 1 = live documents; 2 = tombstones only (every document was deleted);
+    /// 3 = listed by the store but without any row; 4 = documents and tombstones.
+    /// The preloaded ids lie outside the callers' id range and carry older timestamps.
+    #[serde(default)]
+    pub preloaded: u8,
 }
 
 fn name_of(base: &str, ix: u8) -> String {
@@ -79,7 +85,7 @@ impl Check for C18 {
         "E1 single-node engine: 1-6 caller tasks first-use one keyspace name concurrently through the real write path, ConsistencyService / ReplicationService handlers and the repair path; seeded start offsets, storage latency and a cooperative delay between lookup and insert decide the interleaving"
     }
     fn rule(&self) -> &'static str {
-        "Real-cluster arm (1 case in 127): 2-4 complete nodes built with the public API on slow stores, a node stopped and started again while its peers keep writing; at the final quiescent point every node's served keyspace state must list exactly what its store holds (an operation in the store but not in the served state is an accepted operation applied to another instance). Cases: 1-6 callers with seeded start offsets 0-3 ms, each using a fresh keyspace name (a third of the cases: one of two or three different fresh names) for the first time through one of four routes (local write, incoming replicated write, repair Diff+MultiSet, incoming GetState) and issuing one mutation with a unique timestamp; optional storage latency and seeded delays at the lookup/insert gap (hook jitter site group.get_or_create). Oracle at quiescence: the mailbox a later lookup returns serialises a set in which every acknowledged mutation is visible (its id is live/tombstoned at >= its timestamp), set == store (C02 oracle), and a mutation sent through any mailbox handed out earlier is visible through the current one. In a quarter of the cases half of the callers give up (their future is dropped) when they have been left pending 1-9 times, i.e. at any await point of the route, and every name is then written once more; the node's answer to a peer's poll (PollKeyspace) must list every keyspace that holds an acknowledged operation. Non-trivial = >= 2 callers. Distinct = hash of (routes, offsets, jitter, final set)."
+        "Real-cluster arm (1 case in 127): 2-4 complete nodes built with the public API on slow stores, a node stopped and started again while its peers keep writing; at the final quiescent point every node's served keyspace state must list exactly what its store holds (an operation in the store but not in the served state is an accepted operation applied to another instance). Cases: 1-6 callers with seeded start offsets 0-3 ms, each using a fresh keyspace name (a third of the cases: one of two or three different fresh names) for the first time through one of four routes (local write, incoming replicated write, repair Diff+MultiSet, incoming GetState) and issuing one mutation with a unique timestamp; optional storage latency and seeded delays at the lookup/insert gap (hook jitter site group.get_or_create). A quarter of the cases start the node on a store that already knows the names (live documents, tombstones only, a listed keyspace without rows, or both kinds) - the first use after a restart. Oracle at quiescence: the mailbox a later lookup returns serialises a set in which every acknowledged mutation is visible (its id is live/tombstoned at >= its timestamp), set == store (C02 oracle), and a mutation sent through any mailbox handed out earlier is visible through the current one. In a quarter of the cases half of the callers give up (their future is dropped) when they have been left pending 1-9 times, i.e. at any await point of the route, and every name is then written once more; the node's answer to a peer's poll (PollKeyspace) must list every keyspace that holds an acknowledged operation. Non-trivial = >= 2 callers. Distinct = hash of (routes, offsets, jitter, final set)."
     }
     fn assumptions(&self) -> Vec<String> {
         vec!["single OS thread: interleavings are those of await points, chosen by seeded virtual delays; real multi-threaded schedules are not explored".into()]
@@ -157,6 +163,7 @@ impl Check for C18 {
             idle_hours: if rng.gen_bool(0.15) { rng.gen_range(1..=2) } else { 0 },
             purge_fails: rng.gen_bool(0.6),
             late_writes: quitters || rng.gen_bool(0.2),
+            preloaded: if rng.gen_bool(0.25) { rng.gen_range(1..=4) } else { 0 },
         })
         .unwrap()
     }
@@ -198,6 +205,26 @@ impl Check for C18 {
             let mut st = storage.st.lock();
             st.latency_max_ms = sc.storage_latency_ms;
             st.latency_seed = 7;
+        }
+        if sc.preloaded > 0 {
+            // what an earlier incarnation of the node left behind
+            let mut st = storage.st.lock();
+            let names: std::collections::BTreeSet<String> = sc.events.iter().map(|c| name_of(&sc.name, c.name_ix)).collect();
+            for name in names {
+                st.keyspaces.push(name.clone());
+                let rows = st.rows.entry(name).or_default();
+                let old = |k: u64| datacake_crdt::HLCTimestamp::new(Duration::from_millis(sc.base_ms - 900_000 + 4 * k), 0, 2);
+                for k in 0..3u64 {
+                    let live = match sc.preloaded {
+                        1 => true,
+                        2 => false,
+                        3 => continue,
+                        _ => k % 2 == 0,
+                    };
+                    rows.insert(1_000 + k, Row { ts: old(k), data: if live { Some(format!("old{k}").into_bytes()) } else { None } });
+                }
+            }
+            out.fault("node_started_on_a_store_that_knows_the_keyspace");
         }
         let jit = Rc::new(RefCell::new(sc.jitter_ms.clone().into_iter()));
         let fired = Rc::new(RefCell::new(0u64));
